@@ -351,6 +351,18 @@ def prior_calls(rng, c, obj, counters, k=(0, 3)):
         done.append("<refused call %s(%s)>" % (entry, "str" if isinstance(bad_arg, str) else "len %d" % len(bad_arg)))
     if rng.random() < 0.3:
         done.append("<refused parameter assignment: %s>" % refused_parameter_assignment(rng, c, counters))
+    if rng.random() < 0.3:
+        # the caller goes on using the MODEL it handed over (a forecast from another start): the loss object was given its own initial
+        # values and initial time at construction and keeps computing from those
+        try:
+            with contextlib.redirect_stdout(io.StringIO()), np.errstate(all="ignore"):
+                c.m.initial_values = ([float(v) * 1.3 + 0.1 for v in c.x0], float(c.t0) - rng.choice([0.37, 1.0, 2.5]))
+                if rng.random() < 0.5:
+                    c.m.integrate(np.asarray(c.times, dtype=float)[:3] if len(c.times) >= 3 else np.asarray(c.times, dtype=float))
+            done.append("<model re-initialised and used by the caller>")
+            counters["model_reinitialised_by_caller"] = counters.get("model_reinitialised_by_caller", 0) + 1
+        except Exception:
+            counters["model_reinitialisation_raised"] = counters.get("model_reinitialisation_raised", 0) + 1
     counters["prior_calls"] = counters.get("prior_calls", 0) + len(done)
     return done
 
